@@ -22,6 +22,8 @@ type Gen struct {
 	Blobs     map[string][]string // repo -> blob digests pushed (maybe deleted since)
 	Manifests map[string][]ManRef // repo -> manifests pushed
 	TagsSet   map[string][]string
+	Subjects  map[string][]string // repo -> digests named as subject by generated manifests
+	Gone      map[string][]string // repo -> digests of blobs / manifests deleted since (for reads after delete)
 	Writers   []*WriterInfo
 	Large     bool
 	NoUploads bool
@@ -42,7 +44,8 @@ type WriterInfo struct {
 }
 
 func NewGen(r *rand.Rand, large bool) *Gen {
-	g := &Gen{R: r, Large: large, Blobs: map[string][]string{}, Manifests: map[string][]ManRef{}, TagsSet: map[string][]string{}}
+	g := &Gen{R: r, Large: large, Blobs: map[string][]string{}, Manifests: map[string][]ManRef{}, TagsSet: map[string][]string{},
+		Subjects: map[string][]string{}, Gone: map[string][]string{}}
 	g.Repos = []string{"r1", "r2", "a/b"}
 	g.Tags = []string{"t1", "t2", "latest"}
 	if large {
@@ -81,7 +84,7 @@ func (g *Gen) repo() string {
 		return "r1/"
 	}
 	// mostly a repository that already holds something
-	if g.R.Intn(10) < 7 {
+	if g.R.Intn(10) < 8 {
 		var live []string
 		for _, r := range g.Repos {
 			if len(g.Blobs[r])+len(g.Manifests[r]) > 0 {
@@ -93,6 +96,36 @@ func (g *Gen) repo() string {
 		}
 	}
 	return g.pick(g.Repos)
+}
+
+// repoHaving returns, three times in four, a repository for which has() holds (when there is
+// one); otherwise the repository already drawn.
+func (g *Gen) repoHaving(drawn string, has func(r string) bool) string {
+	if has(drawn) || g.R.Intn(4) == 0 {
+		return drawn
+	}
+	var cands []string
+	for _, r := range g.Repos {
+		if has(r) {
+			cands = append(cands, r)
+		}
+	}
+	if len(cands) == 0 {
+		return drawn
+	}
+	return g.pick(cands)
+}
+
+func (g *Gen) withTags(drawn string) string {
+	return g.repoHaving(drawn, func(r string) bool { return len(g.TagsSet[r]) > 0 })
+}
+
+func (g *Gen) withManifests(drawn string) string {
+	return g.repoHaving(drawn, func(r string) bool { return len(g.Manifests[r]) > 0 })
+}
+
+func (g *Gen) withBlobs(drawn string) string {
+	return g.repoHaving(drawn, func(r string) bool { return len(g.Blobs[r]) > 0 })
 }
 
 func (g *Gen) tagIn(repo string) string {
@@ -122,6 +155,9 @@ func sha512Digest(c []byte) string {
 // a digest: usually of something known in the repo, sometimes of unknown content or malformed
 func (g *Gen) blobDigest(repo string) string {
 	p := g.R.Intn(20)
+	if gl := g.Gone[repo]; len(gl) > 0 && p >= 12 && p < 14 {
+		return g.pick(gl)
+	}
 	if bl := g.Blobs[repo]; len(bl) > 0 && p < 14 {
 		return g.pick(bl)
 	}
@@ -142,6 +178,9 @@ func (g *Gen) blobDigest(repo string) string {
 
 func (g *Gen) manDigest(repo string) string {
 	p := g.R.Intn(20)
+	if gl := g.Gone[repo]; len(gl) > 0 && p >= 13 && p < 15 {
+		return g.pick(gl)
+	}
 	if ml := g.Manifests[repo]; len(ml) > 0 && p < 15 {
 		return ml[g.R.Intn(len(ml))].Digest
 	}
@@ -178,7 +217,7 @@ func (g *Gen) manifestContent(repo string) (content []byte, media string) {
 			m.Layers = append(m.Layers, g.descFor(repo, allPresent || g.R.Intn(2) == 0, "application/layer"))
 		}
 		m.Config = g.descFor(repo, allPresent || g.R.Intn(2) == 0, ocispec.MediaTypeImageConfig)
-		switch g.R.Intn(12) {
+		switch g.R.Intn(20) {
 		case 0:
 			m.Config.MediaType = ""
 		case 1:
@@ -193,6 +232,9 @@ func (g *Gen) manifestContent(repo string) (content []byte, media string) {
 		ix := ocispec.Index{MediaType: ocispec.MediaTypeImageIndex}
 		ix.SchemaVersion = 2
 		nm := g.R.Intn(3)
+		if len(g.Manifests[repo]) == 0 && g.R.Intn(10) < 7 {
+			nm = 0 // nothing to point at yet: mostly an empty index rather than a dangling child
+		}
 		for i := 0; i < nm; i++ {
 			if ml := g.Manifests[repo]; len(ml) > 0 && g.R.Intn(5) != 0 {
 				mr := ml[g.R.Intn(len(ml))]
@@ -222,6 +264,19 @@ func (g *Gen) manifestContent(repo string) (content []byte, media string) {
 }
 
 func (g *Gen) maybeSubject(repo string, sub **ocispec.Descriptor) {
+	defer func() {
+		if *sub != nil {
+			g.Subjects[repo] = append(g.Subjects[repo], string((*sub).Digest))
+			switch g.R.Intn(30) { // a malformed subject descriptor now and then
+			case 0:
+				(*sub).MediaType = ""
+			case 1:
+				(*sub).Size = 0
+			case 2:
+				(*sub).Digest = "sha256:short"
+			}
+		}
+	}()
 	switch g.R.Intn(4) {
 	case 0: // existing manifest
 		if ml := g.Manifests[repo]; len(ml) > 0 {
@@ -231,7 +286,11 @@ func (g *Gen) maybeSubject(repo string, sub **ocispec.Descriptor) {
 				(*sub).MediaType = "application/vnd.foo"
 			}
 		}
-	case 1: // dangling
+	case 1: // dangling (often the same one again, so that a digest gets several referrers)
+		if ss := g.Subjects[repo]; len(ss) > 0 && g.R.Intn(2) == 0 {
+			*sub = &ocispec.Descriptor{MediaType: ocispec.MediaTypeImageManifest, Digest: digest.Digest(g.pick(ss)), Size: 3}
+			return
+		}
 		c := g.content()
 		*sub = &ocispec.Descriptor{MediaType: ocispec.MediaTypeImageManifest, Digest: digest.Digest(Sha(append([]byte("dangling"), c...))), Size: 3}
 	}
@@ -272,7 +331,7 @@ func (g *Gen) Next() Op {
 		case p < 10:
 			c := g.content()
 			d := &Desc{Media: "application/octet-stream", Digest: Sha(c), Size: int64(len(c))}
-			switch g.R.Intn(14) {
+			switch g.R.Intn(22) {
 			case 0:
 				d.Digest = Sha(g.content())
 			case 1:
@@ -290,6 +349,7 @@ func (g *Gen) Next() Op {
 			}
 			return Op{Kind: "PushBlob", Repo: repo, Desc: d, Content: c}
 		case p < 22:
+			repo = g.withBlobs(repo)
 			c, media := g.manifestContent(repo)
 			tag := ""
 			if g.R.Intn(3) != 0 {
@@ -297,34 +357,53 @@ func (g *Gen) Next() Op {
 			}
 			return Op{Kind: "PushManifest", Repo: repo, Tag: tag, Content: c, Media: media}
 		case p < 27:
+			repo = g.withBlobs(repo)
 			return Op{Kind: "GetBlob", Repo: repo, Digest: g.blobDigest(repo)}
 		case p < 31:
+			repo = g.withBlobs(repo)
 			return Op{Kind: "GetBlobRange", Repo: repo, Digest: g.blobDigest(repo), O0: int64(g.R.Intn(8)) - 1, O1: int64(g.R.Intn(9)) - 2}
 		case p < 36:
+			repo = g.withManifests(repo)
 			return Op{Kind: "GetManifest", Repo: repo, Digest: g.manDigest(repo)}
 		case p < 42:
+			repo = g.withTags(repo)
 			return Op{Kind: "GetTag", Repo: repo, Tag: g.tagIn(repo)}
 		case p < 45:
 			return Op{Kind: "ResolveBlob", Repo: repo, Digest: g.blobDigest(repo)}
 		case p < 48:
+			repo = g.withManifests(repo)
 			return Op{Kind: "ResolveManifest", Repo: repo, Digest: g.manDigest(repo)}
 		case p < 53:
+			repo = g.withTags(repo)
 			return Op{Kind: "ResolveTag", Repo: repo, Tag: g.tagIn(repo)}
 		case p < 57:
 			from := g.repo()
 			return Op{Kind: "MountBlob", From: from, Repo: repo, Digest: g.blobDigest(from)}
 		case p < 62:
+			repo = g.withBlobs(repo)
 			return Op{Kind: "DeleteBlob", Repo: repo, Digest: g.blobDigest(repo)}
 		case p < 67:
+			repo = g.withManifests(repo)
 			return Op{Kind: "DeleteManifest", Repo: repo, Digest: g.manDigest(repo)}
 		case p < 71:
+			repo = g.withTags(repo)
 			return Op{Kind: "DeleteTag", Repo: repo, Tag: g.tagIn(repo)}
 		case p < 74:
 			return Op{Kind: "Repositories", Start: g.start()}
 		case p < 78:
+			repo = g.withTags(repo)
 			return Op{Kind: "Tags", Repo: repo, Start: g.start()}
 		case p < 82:
-			return Op{Kind: "Referrers", Repo: repo, Digest: g.manDigest(repo)}
+			repo = g.withManifests(repo)
+			dg := g.manDigest(repo)
+			if ss := g.Subjects[repo]; len(ss) > 0 && g.R.Intn(10) < 6 {
+				dg = g.pick(ss)
+			}
+			art := ""
+			if g.R.Intn(8) == 0 {
+				art = "application/vnd.example.sbom"
+			}
+			return Op{Kind: "Referrers", Repo: repo, Digest: dg, Art: art}
 		}
 		if g.NoUploads {
 			continue
@@ -389,6 +468,16 @@ func (g *Gen) Next() Op {
 	}
 }
 
+func without(ss []string, x string) []string {
+	var out []string
+	for _, s := range ss {
+		if s != x {
+			out = append(out, s)
+		}
+	}
+	return out
+}
+
 // Update feeds the result of executing op on the primary executor back into the pools.
 func (g *Gen) Update(o Op, r Result, e *Exec) {
 	switch o.Kind {
@@ -406,6 +495,26 @@ func (g *Gen) Update(o Op, r Result, e *Exec) {
 			if o.Tag != "" {
 				g.TagsSet[o.Repo] = append(g.TagsSet[o.Repo], o.Tag)
 			}
+		}
+	case "DeleteBlob":
+		if r.Kind == "unit" {
+			g.Blobs[o.Repo] = without(g.Blobs[o.Repo], o.Digest)
+			g.Gone[o.Repo] = append(g.Gone[o.Repo], o.Digest)
+		}
+	case "DeleteManifest":
+		if r.Kind == "unit" {
+			var keep []ManRef
+			for _, m := range g.Manifests[o.Repo] {
+				if m.Digest != o.Digest {
+					keep = append(keep, m)
+				}
+			}
+			g.Manifests[o.Repo] = keep
+			g.Gone[o.Repo] = append(g.Gone[o.Repo], o.Digest)
+		}
+	case "DeleteTag":
+		if r.Kind == "unit" && g.R.Intn(2) == 0 { // half of the deleted tags stay in the pool: reads after delete
+			g.TagsSet[o.Repo] = without(g.TagsSet[o.Repo], o.Tag)
 		}
 	case "PushBlobChunked", "PushBlobChunkedResume":
 		if r.Kind == "writer" {
